@@ -36,7 +36,8 @@ Apply(v, c) == CASE c.claim = "set" -> <<c.val>>
 
 (* Deviations: named departures from the documented semantics that the code is believed to contain
    (open findings).  {} = the documented semantics.  "IgnoreClaimDeletion" (H2): a deleted attribute
-   claim still counts.  Used for the sensitivity run of leg S and to attribute rejected trace lines. *)
+   claim still counts.  "ModTimeCountsPermanodeDelete": a live delete claim on the permanode itself
+   counts as a modification.  Used for the sensitivity runs of leg S and to attribute rejected trace lines. *)
 CONSTANT Deviations
 AttrClaims(W, pn) == {c \in W : c.kind = "claim" /\ c.pn = pn}
 LiveAttrClaimsD(W, pn, D) == {c \in AttrClaims(W, pn) : "IgnoreClaimDeletion" \in D \/ ~Deleted(W, c.id)}
@@ -69,7 +70,10 @@ HasAnswers(W, pn, attr, T, signer) == HasAnswersD(W, pn, attr, T, signer, Deviat
 
 (* ---- modification time: latest date of a live attribute claim; <<>> if there is none.
    delete.md: "(Un)Deletions are not considered as modifications". *)
-ModTimeD(W, pn, D) == LET S == {When(c) : c \in LiveAttrClaimsD(W, pn, D)}
+ModTimeD(W, pn, D) == LET S == {When(c) : c \in LiveAttrClaimsD(W, pn, D)} \cup
+                               (IF "ModTimeCountsPermanodeDelete" \in D
+                                THEN {When(d) : d \in {d \in W : d.kind = "delete" /\ d.target = pn /\ ~Deleted(W, d.id)}}
+                                ELSE {})
                       IN IF S = {} THEN Zero ELSE CHOOSE m \in S : \A d \in S : TLeq(d, m)
 ModTime(W, pn) == ModTimeD(W, pn, Deviations)
 
